@@ -1,9 +1,87 @@
 import GnpyDriver.JsonUtil
+import GnpyDriver.C04
 import GnpyModel
 /- driver handlers for property C10 (ops are named "c10.<name>") -/
 open Lean
 namespace Gnpy.Drv.C10
+open Gnpy.Select Gnpy.Edfa
 
-def handlers : List (String × Handler) := []
+def dummyNf : AmpNf Float := .single { model := .fixedGain 0.0, gainMin := 0.0, gainFlatmax := 0.0 }
+
+def getSpec (j : Json) : R (AmpSpec Float) := do
+  let mb ← fOpt (getList getStr) j "multi_band"
+  match mb with
+  | some ms =>
+    return { name := ← fStr j "name", multiBand := some ms, raman := false,
+             allowedForDesign := ← fBool j "allowed", fMin := 0, fMax := 0, gainFlatmax := 0.0, gainMin := 0.0,
+             pMax := 0.0, nf := dummyNf }
+  | none =>
+    return { name := ← fStr j "name", multiBand := none, raman := ← fBool j "raman",
+             allowedForDesign := ← fBool j "allowed", fMin := ← fNat j "fmin", fMax := ← fNat j "fmax",
+             gainFlatmax := ← fF j "gain_flatmax", gainMin := ← fF j "gain_min", pMax := ← fF j "p_max",
+             nf := ← C04.getAmpNf (← fld j "nf") }
+
+def getBand (j : Json) : R Band := do
+  match ← getArr j with
+  | [a, b] => return { fMin := ← getNat a, fMax := ← getNat b }
+  | _ => throw "band = [fmin, fmax]"
+
+def getCtx (j : Json) : R NodeCtx := do
+  return { typeVariety := ← fStr j "type_variety", varietyList := ← fOpt (getList getStr) j "variety_list",
+           prevRoadmBooster := ← fOpt (getList getStr) j "prev_booster",
+           nextRoadmPreamp := ← fOpt (getList getStr) j "next_preamp" }
+
+def restrictionsH (j : Json) : R Json := do
+  let lib ← fList getSpec j "lib"
+  let c ← getCtx (← fld j "ctx")
+  let bands ← fList getBand j "bands"
+  if ← fBool j "multi" then
+    return jList jStr (nodeRestrictionsMulti lib c bands)
+  else
+    match bands with
+    | b :: _ => return jList jStr (nodeRestrictions lib c b)
+    | [] => throw "no band"
+
+def ramanH (j : Json) : R Json := do
+  return jBool (ramanAllowed (← fBool j "prev_is_fiber") (← fList getF j "loss_coef") (← fF j "limit"))
+
+def jCand (c : Cand Float) : Json :=
+  jObj [("variety", jStr c.variety), ("power", jF c.power), ("gain_min", jF c.gainMin), ("nf", C04.jNf c.nf)]
+
+/-- smallest non-zero NF distance between the chosen candidate and any other acceptable one -/
+def nfGap (l : List (Cand Float)) (best : Option Float) : Float :=
+  l.foldl (fun g x =>
+    match x.nf, best with
+    | some a, some b => let d := Float.abs (a - b); if d > 0.0 && d < g then d else g
+    | _, _ => g) 1.0
+
+def selectH (j : Json) : R Json := do
+  let lib ← fList getSpec j "lib"
+  let restr ← fList getStr j "restrictions"
+  let lib' := selectionLibrary lib restr
+  let gain ← fF j "gain"
+  let power ← fF j "power"
+  let ext ← fF j "ext"
+  let ok ← fBool j "raman_allowed"
+  let acc := acceptable (edfaList lib' gain power ext) (ramanList lib' ok gain power ext)
+  match acc, selectEdfa lib' ok gain power ext with
+  | some l, some c =>
+    return jObj [("variety", jStr c.variety), ("reduction", jF c.powerReduction), ("nf", C04.jNf c.nf),
+                 ("acceptable", jList jCand l), ("nf_gap", jF (nfGap l c.nf))]
+  | _, _ => return jObj [("error", jStr "ConfigurationError")]
+
+def getBT (j : Json) : R (BandTarget Float) := do
+  return { band := ← getBand (← fld j "band"), gain := ← fF j "gain", power := ← fF j "power" }
+
+def preselectH (j : Json) : R Json := do
+  let lib ← fList getSpec j "lib"
+  let restr ← fList getStr j "restrictions"
+  let bts ← fList getBT j "targets"
+  match preselect lib (← fF j "ext") restr bts with
+  | none => return jObj [("error", jStr "ConfigurationError")]
+  | some l => return jObj [("ok", jList jStr l)]
+
+def handlers : List (String × Handler) :=
+  [("c10.restrictions", restrictionsH), ("c10.raman", ramanH), ("c10.select", selectH), ("c10.preselect", preselectH)]
 
 end Gnpy.Drv.C10
